@@ -72,6 +72,24 @@ def loc(n, fn=None):
     return '%s:%s' % (f, n.get('ln', '?'))
 
 
+_REN = [None]
+
+
+class renaming:
+    """with renaming({decl id: canonical name}): show(...) prints locals/params by role, so that a
+    rule comparing unparsed expressions is insensitive to identifier renames."""
+
+    def __init__(self, m):
+        self.m = m
+
+    def __enter__(self):
+        self.prev = _REN[0]
+        _REN[0] = self.m
+
+    def __exit__(self, *a):
+        _REN[0] = self.prev
+
+
 def show(n, depth=0):
     """Normalised unparse of an expression (implicit casts dropped, callees resolved)."""
     if n is None:
@@ -82,8 +100,10 @@ def show(n, depth=0):
     if depth > 40:
         return '...'
     d = depth + 1
+    if k == 'Ref' and _REN[0] and n.get('id') in _REN[0]:
+        return _REN[0][n['id']]
     if k == 'Cast':
-        if n.get('impl') or n.get('ck') in NOOP_CASTS:
+        if n.get('impl') or n.get('ck') in NOOP_CASTS or n.get('ck') == 'BitCast':
             return show(n['e'], d)
         return '(%s)%s' % (n.get('ty', '?'), show(n['e'], d))
     if k in ('Int', 'Bool'):
@@ -138,6 +158,10 @@ def show(n, depth=0):
         return 'new %s%s' % (n.get('aty'), '(...)' if n.get('hasinit') else '')
     if k == 'Delete':
         return 'delete %s' % show(n.get('e'), d)
+    if k == 'Decl':
+        return '; '.join('%s %s%s' % (x.get('ty', ''), x.get('name', ''), (' = ' + show(x['init'], d)) if 'init' in x else '') for x in n.get('d', []))
+    if k == 'Return':
+        return 'return %s' % show(n.get('e'), d)
     if k == 'Throw':
         return 'throw %s' % n.get('tty', '')
     if k == 'ValueInit':
